@@ -348,7 +348,7 @@ class _CaseTimeout(Exception):
     pass
 
 
-def _guarded(fn, case, n):
+def _guarded(fn, case, n, allowance=None):
     """run fn(case) under an alarm; on timeout / MemoryError return n observations naming it"""
     import signal
 
@@ -356,7 +356,7 @@ def _guarded(fn, case, n):
         raise _CaseTimeout()
 
     old = signal.signal(signal.SIGALRM, on_alarm)
-    signal.alarm(CASE_TIMEOUT_S if _TIMEOUTS[0] < 2 else 3)
+    signal.alarm(allowance or (CASE_TIMEOUT_S if _TIMEOUTS[0] < 2 else 3))
     try:
         return fn(case)
     except _CaseTimeout:
@@ -379,7 +379,11 @@ def impl_sig(case):
 
 def impl_l2(case):
     r = _guarded(_impl_l2, case, None)
-    return r if r is not None else {"exc": "TimeoutOrMemoryError"}
+    if r is None and _TIMEOUTS[0] <= 1:
+        # the first timeout of this worker: the machine may just be loaded; once more, with a long allowance
+        r = _guarded(_impl_l2, case, None, allowance=90)
+    # a case that cannot be evaluated is a broken tie (never a pass, never a failing input)
+    return r if r is not None else {"exc": "TIMEOUT", "checks": []}
 
 
 def _impl_l1(case):
@@ -779,6 +783,8 @@ def _impl_l2(case):
             out["paths"].append({"flag": bool(is_global_fail_set(e.context)), "stuck": bool(e.context.is_stuck()),
                                  "error": type(err).__name__ if err is not None else None, "depth": e.context.depth,
                                  "nconds": len(conds), "holds": holds})
+    except (_CaseTimeout, MemoryError):
+        raise
     except Exception as e:  # noqa: BLE001
         out = {"exc": type(e).__name__}
     finally:
@@ -903,7 +909,8 @@ def known_or_fail(rep, what, case, sig):
                 hits[k["id"]] = {"what": k["what"], "first_case": case, "count": 0}
             hits[k["id"]]["count"] += 1
             return True
-    if len([f for f in rep.failures if f["kind"] == "failing-input"]) < 10:
+    # at most 4 recorded per kind of defect (a known finding must not use up the room of a new one)
+    if len([f for f in rep.failures if f["kind"] == "failing-input" and (f.get("sig") or {}).get("defect") == sig.get("defect")]) < 4:
         rep.fail("failing-input", what, case=case, sig=sig)
     return False
 
@@ -919,11 +926,14 @@ def check_l2(rep, bad, l2, impl2, res2):
         if im.get("checks"):
             rep.count("l2_solver_answers", "/".join(im["checks"]))
         nontriv = False
+        if im.get("exc") == "TIMEOUT":
+            bad("broken-tie", f"L2 {c['sig']} depth {c['depth']}: the run did not finish within the allowance (twice): not evaluated", shown)
+            continue
         if "exc" in im:
             cd0 = c["sel"].to_bytes(4, "big") + concretize(c["segs"], c["vals"][0])
             m = spec_msg(d, cd0) if d else None
             if d and d[1] in ("string", "bytes") and d[2]:
-                bad("failing-input", f"{c['sig']} at call depth {c['depth']}: {im['exc']} escapes SEVM.run: the unsupported overload takes every path of the test down instead of ending this path as stuck", shown, {"defect": "unsupported-escapes", "exc": im["exc"]})
+                bad("failing-input", f"{c['sig']} at call depth {c['depth']}: {im['exc']} escapes SEVM.run: the unsupported overload takes every path of the test down instead of ending this path as stuck", shown, {"defect": "unsupported-escapes-run", "exc": im["exc"]})
             elif m is not None and not utf8_ok(m) and im["exc"] == "UnicodeDecodeError":
                 bad("failing-input", f"{c['sig']} at call depth {c['depth']}: UnicodeDecodeError escapes SEVM.run", shown, {"defect": "unicode-message"})
             else:
@@ -1112,6 +1122,9 @@ def check_l2seq(rep, bad, cases, impls, res):
         rep.count("l2seq_shape", c["tag"])
         rep.count("l2seq_len", len(steps))
         mo = res[k] if res is not None else None
+        if im.get("exc") == "TIMEOUT":
+            bad("broken-tie", f"L2s [{descr}] depth {c['depth']}: the run did not finish within the allowance (twice): not evaluated", shown)
+            continue
         if "exc" in im:
             bad_msg = [st for st in steps if st["kind"] == "assert" and st["descr"][3] and not _is_unsupported(st["descr"])
                        and (spec_msg(tuple(st["descr"]), step_calldata(st, c["vals"][0])) is not None)
@@ -1120,7 +1133,7 @@ def check_l2seq(rep, bad, cases, impls, res):
                 bad("failing-input", f"sequence [{descr}] at call depth {c['depth']}: UnicodeDecodeError escapes SEVM.run", shown, {"defect": "unicode-message"})
             elif any(st["kind"] == "assert" and _is_unsupported(st["descr"]) for st in steps):
                 bad("failing-input", f"sequence [{descr}] at call depth {c['depth']}: {im['exc']} escapes SEVM.run: an unsupported overload takes every path of the test down (the failures found before it included) instead of ending one path as stuck",
-                    dict(shown, valuation=c["vals"][0]), {"defect": "unsupported-escapes", "exc": im["exc"]})
+                    dict(shown, valuation=c["vals"][0]), {"defect": "unsupported-escapes-seq", "exc": im["exc"]})
             else:
                 bad("failing-input", f"sequence [{descr}] at call depth {c['depth']}: {im['exc']} escapes SEVM.run", shown, {"defect": "exception", "exc": im["exc"]})
             if mo is not None and mo != [9]:
